@@ -27,7 +27,17 @@ is carried as follows.  History: `C08_history_independent` (full, for the
 abstraction of a compilation to its package-initialiser blocks and function
 labels).  Map orders: every enumerated site is invariant
 (`C08_init_perm_invariant`, `C08_parse_perm_invariant`, `C08_sortedImports_…`,
-`C08_defineConstants_…`, `C08_findKey_…`, …).  NOT a theorem: that nothing
+`C08_defineConstants_…`, `C08_findKey_…`, …).  Process state (what survives
+in package-level variables between compilations of one process, fresh
+`Compiler`s included): `C08_step_independent_of_process_state` for the step of
+the code as it is (a function of source, parameters, process state that never
+looks at the state — tied by the pinned list of package-level variables and
+the `phist` correspondence), and for any memoising facility the exact
+condition: invisible iff the stored object is a function of the key
+(`C08_memo_keyed_by_object_history_independent`,
+`C08_memo_coarse_key_history_dependent`; instance: the divider of
+`mpa.Int.Div/Mod`, `C08_divider_keyed_by_max_width_history_dependent`).
+NOT a theorem: that nothing
 outside the enumerated sites and the modelled state influences the bytes
 (directory listing order, pointer values, scheduler) — that part is the
 cross-process oracle of harness/cmd/c08.
@@ -51,9 +61,11 @@ but one importer is bound to the wrong package (`C08_alias_resolution_observatio
 No two packages of /repo/pkg share a last path element (checked on every run).
 -/
 import MpcVerif.Proofs.Determinism
+import MpcVerif.Proofs.ProcState
 
 namespace Mpc
 open Mpc.Det
+open Mpc.PSt
 
 /-! ### Site: Program.DefineConstants (range prog.Constants) -/
 
@@ -290,5 +302,105 @@ theorem C08_old_history_dependent_labels :
       (compileOld lib Cache.empty prog).1.funcLabels ≠
       (compileOld lib (compileOld lib Cache.empty prog).2 prog).1.funcLabels :=
   ⟨[⟨1, [], 0, 0⟩], ⟨⟨0, [1], 0, 0⟩, [0], [0, 5]⟩, by decide⟩
+
+
+/-! ### Process state: package-level variables of the compile path (Model/ProcState.lean)
+
+`C08_history_independent` above is about what a `Compiler` keeps.  The property
+also quantifies over everything else the PROCESS did before ("any number of
+earlier compilations in the process", fresh instances included): a
+compilation step is a function of (source, parameters, process state) and its
+output must not depend on the process state.  The tie to the code is (1) the
+structural fact that pins the package-level variables of the compile path (a
+new one is a broken obligation and focuses the history search on the
+facilities of its package), (2) the `phist` correspondence: the folded wide
+constants of every compilation of real same-Compiler histories equal
+`outputsAlong stepNow`, (3) the process-state oracle of harness/cmd/c08/pstate.go
+(sibling groups, every history in its own process). -/
+
+/-- FULL, for the code as it is: whatever the process compiled before (any two
+histories, from any two initial states), the step's output for (source,
+parameters) is the same, and the state is handed on untouched. -/
+theorem C08_step_independent_of_process_state {σ π : Type} (st₁ st₂ : σ) (h₁ h₂ : List (Src × π))
+    (src : Src) (par : π) :
+    (stepNow src par (PSt.runHistory stepNow st₁ h₁)).1 = (stepNow src par (PSt.runHistory stepNow st₂ h₂)).1 ∧
+    PSt.runHistory (stepNow (π := π)) st₁ h₁ = st₁ :=
+  ⟨rfl, runHistory_stepNow h₁ st₁⟩
+
+-- non-vacuity: the victim of seeded change S56 after an unrelated compilation: A / B and A % B for
+-- A = 0xf123456789abcdef0123456789abcdef (128 bits), B = 0x123456789abcdef01234567 (89 bits) in uint128
+example : (stepNow [⟨128, .div, 0xf123456789abcdef0123456789abcdef, 0x123456789abcdef01234567⟩,
+                    ⟨128, .mod, 0xf123456789abcdef0123456789abcdef, 0x123456789abcdef01234567⟩] ()
+      (PSt.runHistory stepNow () [([⟨128, .div, 0x80000000000000000000000000000001, 1000003⟩], ())])).1
+    = [340282366920938463463374607375665201152, 276701161135814226449] := by decide +kernel
+
+/-- The uncached divider answer IS what the code as it is folds. -/
+theorem C08_foldNow_is_uncached_divider (w x y : Nat) :
+    foldNow ⟨w, .div, x, y⟩ = (direct dividerByWidths (x, y)).1 ∧
+    foldNow ⟨w, .mod, x, y⟩ = (direct dividerByWidths (x, y)).2 ∧
+    direct dividerByMax (x, y) = direct dividerByWidths (x, y) := ⟨rfl, rfl, rfl⟩
+
+/-- A memo table in the process state whose stored object is a function of its
+KEY is invisible: after every history of compilations, for every capacity
+(eviction), every compilation gets the uncached answers. -/
+theorem C08_memo_keyed_by_object_history_independent {ρ κ ω ο : Type} [DecidableEq κ] (F : Facility ρ κ ω ο)
+    (hf : Factors F) (cap : Nat) (history : List (List ρ)) (reqs : List ρ) :
+    (compileMemo F cap reqs (runMemoHistory F cap history [])).1 = reqs.map (direct F) :=
+  compileMemo_out F hf cap reqs _ (runMemoHistory_sound F cap history [] (sound_nil F))
+
+-- non-vacuity: a table keyed by the request itself, a history of two compilations, capacity 1
+example : (compileMemo (⟨id, fun r => r + 1, fun o r => o * r⟩ : Facility Nat Nat Nat Nat) 1 [3, 4]
+      (runMemoHistory ⟨id, fun r => r + 1, fun o r => o * r⟩ 1 [[5], [3, 9]] [])).1 = [12, 20] :=
+  C08_memo_keyed_by_object_history_independent _ (fun _ _ h => by simp_all) 1 _ _
+
+/-- … and a COARSER key is visible: if two requests share a key but the object
+built for one answers the other differently, then after the history "one
+compilation asking `a`" a compilation asking `b` gets another output than in a
+fresh process — for every capacity ≥ 1 ("last object" slot included). -/
+theorem C08_memo_coarse_key_history_dependent {ρ κ ω ο : Type} [DecidableEq κ] (F : Facility ρ κ ω ο)
+    (cap : Nat) (hc : 1 ≤ cap) (a b : ρ) (hk : F.key a = F.key b)
+    (hne : F.use (F.build a) b ≠ F.use (F.build b) b) :
+    ∃ history : List (List ρ),
+      (compileMemo F cap [b] (runMemoHistory F cap history [])).1 ≠ (compileMemo F cap [b] []).1 ∧
+      (compileMemo F cap [b] []).1 = [direct F b] := by
+  refine ⟨[[a]], ?_, by simp [compileMemo, serve, lookup, direct]⟩
+  rw [table_after_one F cap hc a]
+  simp [compileMemo, serve, lookup, hk, hne]
+
+/-- The divider of `mpa.Int.Div/Mod` memoised by BOTH operand widths would be
+invisible … -/
+theorem C08_divider_keyed_by_widths_history_independent (cap : Nat) (history : List (List (Nat × Nat)))
+    (reqs : List (Nat × Nat)) :
+    (compileMemo dividerByWidths cap reqs (runMemoHistory dividerByWidths cap history [])).1 =
+      reqs.map (direct dividerByWidths) :=
+  C08_memo_keyed_by_object_history_independent dividerByWidths
+    (fun a b h => by simp only [dividerByWidths, Prod.mk.injEq] at h; simp [dividerByWidths, h.1, h.2]) cap history reqs
+
+example : (compileMemo dividerByWidths 1 [(0xf123456789abcdef0123456789abcdef, 0x123456789abcdef01234567)]
+      (runMemoHistory dividerByWidths 1 [[(0x80000000000000000000000000000001, 1000003)]] [])).1
+    = [(340282366920938463463374607375665201152, 276701161135814226449)] := by decide +kernel
+
+/-- … memoised by `max x.bits y.bits` (a "last divider" slot, capacity 1) it is
+NOT: witness = the replay of seeded change S56.  After a compilation that folds
+`0x80000000000000000000000000000001 / 1000003` (widths 128 and 32) the fold of
+`0xf123456789abcdef0123456789abcdef / 0x123456789abcdef01234567` (widths 128
+and 89, same maximum) is evaluated on the stored circuit, which reads only 32
+bits of the divisor: other quotient and remainder than in a fresh process.
+Replayed on the real compiler by harness/cmd/c08/pstate.go (family
+wide-const-divmod: same maximum, different operand sizes). -/
+theorem C08_divider_keyed_by_max_width_history_dependent :
+    ∃ (history : List (List (Nat × Nat))) (r : Nat × Nat),
+      (compileMemo dividerByMax 1 [r] (runMemoHistory dividerByMax 1 history [])).1 ≠
+      (compileMemo dividerByMax 1 [r] []).1 := by
+  obtain ⟨h, hne, _⟩ := C08_memo_coarse_key_history_dependent dividerByMax 1 (Nat.le_refl 1)
+    (0x80000000000000000000000000000001, 1000003)
+    (0xf123456789abcdef0123456789abcdef, 0x123456789abcdef01234567)
+    (by decide +kernel) (by decide +kernel)
+  exact ⟨h, _, hne⟩
+
+-- the two outputs of the witness
+example : (compileMemo dividerByMax 1 [(0xf123456789abcdef0123456789abcdef, 0x123456789abcdef01234567)]
+      (runMemoHistory dividerByMax 1 [[(0x80000000000000000000000000000001, 1000003)]] [])).1
+    = [(340282365886020561464563945178558002168, 4109017)] := by decide +kernel
 
 end Mpc
